@@ -43,6 +43,17 @@ import (
 )
 
 var c13Paths = []string{"a.txt", "b.go", "dir/c.txt", "dir/sub/d.md", "e"}
+
+// the ignore file of a branch: a normal build does not index the files it excludes (here: everything under dir/), a delta
+// build must not either; a change of the ignore file itself makes a delta build fall back.  Path number 0 in the model.
+const c13IgnorePath = ".sourcegraph/ignore"
+const c13IgnoreContent = "dir/\n"
+
+func c13Ignored(t c13Tree, p string) bool {
+	_, has := t[c13IgnorePath]
+	return has && strings.HasPrefix(p, "dir/")
+}
+
 var c13Pool = []string{"alpha\n", "beta\nbeta\n", "gamma content\nsecond line\n", "delta words here\n"}
 
 type c13Gen struct {
@@ -50,6 +61,7 @@ type c13Gen struct {
 	contents []string       // id-1 -> content
 	cid      map[string]int // content -> id
 	pid      map[string]int // path -> id
+	ignoreFiles bool        // the history has .sourcegraph/ignore files
 }
 
 func (g *c13Gen) content(s string) int {
@@ -120,6 +132,9 @@ func c13TreeTerm(g *c13Gen, t c13Tree) string {
 		if t[p] < 0 {
 			continue // a gitlink (submodule entry): not a file, never indexed without Options.Submodules
 		}
+		if c13Ignored(t, p) {
+			continue // excluded by the branch's ignore file: never indexed
+		}
 		xs = append(xs, cTuple(cN(uint64(g.pid[p])), cN(uint64(t[p]))))
 	}
 	if len(xs) == 0 {
@@ -133,7 +148,12 @@ func c13Mutate(g *c13Gen, trees []c13Tree, hist [][]c13Tree, classes map[string]
 	r := g.r
 	nb := len(trees)
 	pick := func(t c13Tree) (string, bool) {
-		ps := t.paths()
+		var ps []string
+		for _, p := range t.paths() {
+			if p != c13IgnorePath {
+				ps = append(ps, p)
+			}
+		}
 		if len(ps) == 0 {
 			return "", false
 		}
@@ -145,6 +165,13 @@ func c13Mutate(g *c13Gen, trees []c13Tree, hist [][]c13Tree, classes map[string]
 		}
 		return g.content(fmt.Sprintf("unique text %d\nof the history\n", len(g.contents)))
 	}
+	// in histories with ignore files half of the edits go to the paths the ignore file excludes
+	pickPath := func() string {
+		if g.ignoreFiles && r.Chance(50) {
+			return r.Pick([]string{"dir/c.txt", "dir/sub/d.md"})
+		}
+		return r.Pick(c13Paths)
+	}
 	ne := r.Intn(4)
 	if r.Chance(10) {
 		ne = 0
@@ -153,6 +180,9 @@ func c13Mutate(g *c13Gen, trees []c13Tree, hist [][]c13Tree, classes map[string]
 		b := r.Intn(nb)
 		t := trees[b]
 		kindOfEdit := r.Intn(11)
+		if g.ignoreFiles && r.Chance(8) {
+			kindOfEdit = 11
+		}
 		if r.Chance(30) {
 			// replace a submodule entry by a file again
 			for _, p := range t.paths() {
@@ -174,7 +204,7 @@ func c13Mutate(g *c13Gen, trees []c13Tree, hist [][]c13Tree, classes map[string]
 			}
 			t[p] = -(1 + r.Intn(3))
 		case 0, 1: // add / modify
-			p := r.Pick(c13Paths)
+			p := pickPath()
 			if v, ok := t[p]; ok && v < 0 {
 				classes["gitlink-to-file"] = true
 			} else if ok {
@@ -232,8 +262,16 @@ func c13Mutate(g *c13Gen, trees []c13Tree, hist [][]c13Tree, classes map[string]
 				t[p], t[q] = t[q], t[p]
 				classes["swap"] = true
 			}
+		case 11: // the ignore file appears / disappears on the branch (a delta build falls back)
+			if _, has := t[c13IgnorePath]; has {
+				delete(t, c13IgnorePath)
+				classes["ignore-file-removed"] = true
+			} else {
+				t[c13IgnorePath] = g.content(c13IgnoreContent)
+				classes["ignore-file-added"] = true
+			}
 		case 9: // same path, different content on every branch
-			p := r.Pick(c13Paths)
+			p := pickPath()
 			for i := range trees {
 				trees[i][p] = newContent()
 			}
@@ -290,6 +328,7 @@ func c13GenHistory(r *vfRand) *c13Hist {
 	for i, p := range c13Paths {
 		g.pid[p] = i + 1
 	}
+	g.pid[c13IgnorePath] = 0
 	nb := 1 + r.Intn(3)
 	if r.Chance(50) {
 		nb = 2
@@ -325,6 +364,28 @@ func c13GenHistory(r *vfRand) *c13Hist {
 	}
 	if r.Chance(20) {
 		trees[r.Intn(nb)][r.Pick(c13Paths)] = -1 // starts with a submodule entry somewhere
+	}
+	if r.Chance(30) {
+		g.ignoreFiles = true
+		h.classes["ignore-files"] = true
+		with := 0
+		for i := range trees {
+			if r.Chance(60) {
+				trees[i][c13IgnorePath] = g.content(c13IgnoreContent)
+				with++
+			}
+			for _, p := range []string{"dir/c.txt", "dir/sub/d.md"} {
+				if r.Chance(50) {
+					trees[i][p] = g.content(r.Pick(c13Pool)) // excluded on the branches with the ignore file, indexed on the others
+				}
+			}
+		}
+		// one branch with and one without the ignore file
+		if nb > 1 && with == 0 {
+			trees[r.Intn(nb)][c13IgnorePath] = g.content(c13IgnoreContent)
+		} else if nb > 1 && with == nb {
+			delete(trees[r.Intn(nb)], c13IgnorePath)
+		}
 	}
 	var hist [][]c13Tree
 	nsteps := 2 + r.Intn(5)
@@ -584,6 +645,7 @@ func c13RunChunk(t *testing.T, root string, hists []*c13Hist, base int) {
 		// what the last build recorded (for the class labels only; the model computes the decision itself)
 		var metaIdx string
 		metaOpt := -1
+		lastTrees := map[string]c13Tree{}
 		for step := range h.steps {
 			st := &h.steps[step]
 			// ---- the branches move to the commits of this step
@@ -650,13 +712,21 @@ func c13RunChunk(t *testing.T, root string, hists []*c13Hist, base int) {
 					classes["fallback:branch-list"] = true
 				case metaOpt != st.optV:
 					classes["fallback:index-options"] = true
+				default:
+					for _, nm := range idxNames {
+						_, was := lastTrees[nm][c13IgnorePath]
+						_, is := treeOf(nm)[c13IgnorePath]
+						if was != is {
+							classes["fallback:ignore-file"] = true
+						}
+					}
 				}
 			}
 			runTerms = append(runTerms, cTuple(cList(treeTerms), kind, cList(brTerms), cN(uint64(st.optV)), cBool(over)))
 			runDesc = append(runDesc, map[string]any{"requested": kind, "branches": idxNames, "options_variant": st.optV, "shard_max": st.shardMax,
 				"shards_before": len(prev), "trees(branch->path->content id)": treeDesc})
 			replay := func() map[string]any {
-				return map[string]any{"git_branches": h.names, "delta_shard_number_fallback_threshold": h.threshold, "paths(id-1)": c13Paths,
+				return map[string]any{"git_branches": h.names, "delta_shard_number_fallback_threshold": h.threshold, "paths(id-1)": c13Paths, "ignore_file(path 0)": c13IgnorePath,
 					"contents(id-1)": g.contents, "runs": runDesc,
 					"options_variants": "0 default, 1 SizeMax=1<<20, 2 TrigramMax=19000, 3 LargeFiles=[*.nomatch]",
 					"how": "props/C13/NOTES.md (replay): commit the listed trees per run with git fast-import, call gitindex.IndexGitRepo with the run's Branches / IsDelta / options"}
@@ -684,6 +754,10 @@ func c13RunChunk(t *testing.T, root string, hists []*c13Hist, base int) {
 				break
 			}
 			metaIdx, metaOpt = fmt.Sprint(idxNames), st.optV
+			lastTrees = map[string]c13Tree{}
+			for _, nm := range idxNames {
+				lastTrees[nm] = treeOf(nm)
+			}
 			if os.Getenv("C13_GC") == "" {
 				runtime.GC() // the builder's tables are garbage now: the next build reuses their (resident) pages
 			}
@@ -693,7 +767,15 @@ func c13RunChunk(t *testing.T, root string, hists []*c13Hist, base int) {
 				t.Fatal(err)
 			}
 			for _, name := range idxNames {
-				want := truth[shaOfBranch[name]]
+				all := truth[shaOfBranch[name]]
+				want := map[string]string{}
+				_, hasIgnore := all[c13IgnorePath]
+				for p, id := range all {
+					if hasIgnore && strings.HasPrefix(p, "dir/") {
+						continue // the branch's own ignore file ("dir/") excludes it: a normal build does not index it
+					}
+					want[p] = id
+				}
 				res, err := ss.Search(context.Background(), &query.Branch{Pattern: name, Exact: true}, &zoekt.SearchOptions{Whole: true})
 				if err != nil {
 					t.Fatal(err)
@@ -704,7 +786,10 @@ func c13RunChunk(t *testing.T, root string, hists []*c13Hist, base int) {
 				}
 				for p, ids := range got {
 					w, ok := want[p]
+					_, inHead := all[p]
 					switch {
+					case !ok && inHead:
+						vfOracleFail("ignored-file-found", fmt.Sprintf("run %d (%s): branch %s finds %s, which the branch's %s excludes (a normal build does not index it)", step, kind, name, p, c13IgnorePath), replay())
 					case !ok:
 						vfOracleFail("stale-doc:path-absent-from-head", fmt.Sprintf("run %d (%s): branch %s finds %s which is not in its head commit", step, kind, name, p), replay())
 					case len(ids) > 1:
